@@ -11,7 +11,7 @@ const MAX_EIRP: u8 = 16;
 
 pub(crate) type AS923_1 = DynamicChannelPlan<AS923Region<923_200_000, 0>>;
 pub(crate) type AS923_2 = DynamicChannelPlan<AS923Region<921_400_000, 1800000>>;
-pub(crate) type AS923_3 = DynamicChannelPlan<AS923Region<916_500_000, 6600000>>;
+pub(crate) type AS923_3 = DynamicChannelPlan<AS923Region<916_600_000, 6600000>>;
 pub(crate) type AS923_4 = DynamicChannelPlan<AS923Region<917_300_000, 5900000>>;
 
 #[derive(Default, Clone)]
